@@ -42,6 +42,7 @@ def handleBase (toks : List String) : Option String :=
   | "dis" :: rest => some (runAsm ("dis" :: rest))          -- disassembler model (C08/C09)
   | "spc" :: rest => some (runAsm ("spc" :: rest))          -- Spec.Asm.encode
   | "spa" :: rest => some (runAsm ("spa" :: rest))
+  | "spp" :: rest => some (runAsm ("spp" :: rest))          -- Spec.Asm.parse (C07 soundness oracle)
   | "num" :: rest => some (runNum ("num" :: rest))
   | "rng" :: rest => some (runNum ("rng" :: rest))
   | "lbl" :: rest => some (runNum ("lbl" :: rest))
